@@ -21,17 +21,22 @@ Key(r, m) == <<r.name, m, r.seq, r.qual, r.ref, r.pos, r.cigar>>
 PairedNames(in) == { in[i].name : i \in { k \in DOMAIN in : in[k].pm # 0 } }
 
 InKeys(in)       == [ i \in DOMAIN in  |-> Key(in[i], in[i].pm) ]
-OutKeys(in, out) == [ i \in DOMAIN out |-> Key(out[i], IF out[i].name \in PairedNames(in) THEN out[i].mate ELSE 0) ]
+OutKeys(in, out) == LET pn == PairedNames(in)
+                    IN [ i \in DOMAIN out |-> Key(out[i], IF out[i].name \in pn THEN out[i].mate ELSE 0) ]
 
-(* multiset comparison, naming what is wrong *)
-Missing(a, b)    == { x \in SeqSet(a) : CountIn(b, x) = 0 }                   \* in a, not at all in b
-Duplicated(a, b) == { x \in SeqSet(b) : CountIn(b, x) > CountIn(a, x) /\ CountIn(a, x) > 0 }
-Foreign(a, b)    == { x \in SeqSet(b) : CountIn(a, x) = 0 }
+(* multiset comparison, naming what is wrong.  Written with sets first so that inputs of 10^4 records stay cheap:  *)
+(* the quadratic CountIn is only evaluated when a sequence really holds a key twice.                                *)
+HasDup(q)        == Cardinality(SeqSet(q)) # Len(q)
+Missing(a, b)    == SeqSet(a) \ SeqSet(b)                                     \* in a, not at all in b
+Foreign(a, b)    == SeqSet(b) \ SeqSet(a)                                     \* in b, not at all in a
+Duplicated(a, b) == IF ~HasDup(b) THEN {}
+                    ELSE { x \in SeqSet(b) \cap SeqSet(a) : CountIn(b, x) > CountIn(a, x) }
 
 (* every input record is in the output (at least once): C20's "contains every record"           *)
 ContainsAll(inkeys, outkeys) == Missing(inkeys, outkeys) = {}
 (* exactly the input records, each once: C05                                                    *)
-SameRecords(inkeys, outkeys) == SameBag(inkeys, outkeys)
+SameRecords(inkeys, outkeys) == IF HasDup(inkeys) \/ HasDup(outkeys) THEN SameBag(inkeys, outkeys)
+                                ELSE Len(inkeys) = Len(outkeys) /\ SeqSet(inkeys) = SeqSet(outkeys)
 
 (* coordinate order of a BAM: by contig index of its own header, unplaced records last          *)
 Unplaced == 1073741824
